@@ -178,3 +178,159 @@ Theorem ltake_out_hands_over_everything code k :
   fst (ltake_out code k) = OCall code (map loeff (l_out k)) (l_log k) /\
   l_out (snd (ltake_out code k)) = [] /\ l_reqs (snd (ltake_out code k)) = l_reqs k ++ l_out k.
 Proof. unfold ltake_out. cbn. auto. Qed.
+
+(* ---------- the trace predicates of Check.v hold of every trace of the legacy host ---------- *)
+From Crux Require Import Rt.Check Rt.HostProps.
+
+Lemma lextends_prefix a b : lextends a b -> is_prefix a b = true.
+Proof. intros [l ->]. apply is_prefix_app. Qed.
+Lemma lprocess_log fuel hs k k' : lprocess fuel hs k = Some k' -> lextends (l_log k) (l_log k').
+Proof.
+  intros E. destruct (lprocess_spec fuel hs k k' E) as ([l P] & _ & _ & _ & EV).
+  unfold lpipeline in P. rewrite EV, app_nil_r in P. exists (l_events k ++ l). rewrite P, app_assoc. reflexivity.
+Qed.
+Lemma lupdate_log hs e k : l_log (lupdate hs e k) = l_log k ++ [e].
+Proof. apply lupdate_channels. Qed.
+
+(* C03_log: the log only grows, a submitted event is applied first *)
+Theorem lcrun_log_ok : forall acts hs k os, lcrun hs acts k = Some os -> C03_log acts os (l_log k) = true.
+Proof.
+  induction acts as [|a acts IH]; intros hs k os E; cbn [lcrun] in E.
+  - assert (os = []) by congruence. subst. reflexivity.
+  - destruct (lstep hs a k) as [[o k']|] eqn:E1; [|discriminate].
+    destruct (lcrun hs acts k') as [os'|] eqn:E2; [|discriminate].
+    assert (X : os = o :: os') by congruence. subst os. clear E. apply IH in E2.
+    assert (Same : forall o0, (match o0 with OCall _ _ _ => False | _ => True end) -> l_log k' = l_log k -> C03_log (a :: acts) (o0 :: os') (l_log k) = true).
+    { intros o0 No El. cbn [C03_log]. destruct o0; try contradiction; rewrite <- El; exact E2. }
+    destruct a; cbn [lstep] in E1;
+      try (assert (Y : o = ONone /\ k' = k) by (split; congruence); destruct Y as [-> ->]; apply Same; [exact I | reflexivity]).
+    + (* AResolve *)
+      destruct (find_lr tg v occ 0 (l_reqs k)) as [i|]; [|assert (Y : o = OResolve 3 /\ k' = k) by (split; congruence); destruct Y as [-> ->]; apply Same; [exact I | reflexivity]].
+      set (r := nth i (l_reqs k) (mkLR 0 0 0 0 true)) in *.
+      destruct (lr_dropped r); [assert (Y : o = OResolve 3 /\ k' = k) by (split; congruence); destruct Y as [-> ->]; apply Same; [exact I | reflexivity]|].
+      destruct (lr_kind r) as [|[|[|n]]].
+      * assert (Y : o = OCall 1 [] (l_log k) /\ k' = k) by (split; congruence). destruct Y as [-> ->].
+        cbn [C03_log]. rewrite is_prefix_refl. exact E2.
+      * match type of E1 with match ?x with _ => _ end = _ => destruct x as [k2|] eqn:E3; [|discriminate] end.
+        apply lprocess_log in E3.
+        assert (Y : ltake_out 0 k2 = (o, k')) by congruence. unfold ltake_out in Y. inversion Y; subst o k'; clear Y.
+        unfold ltake_out in *. cbn [fst snd l_log] in *. cbn [C03_log].
+        match type of E3 with lextends (l_log ?kk) _ => assert (EL : l_log kk = l_log k) end.
+        { unfold lset_req. cbn [l_log]. destruct (lc_alive (gcell (lr_cell r) k)); [|reflexivity].
+          unfold lwake_cell. destruct (lc_waker (gcell (lr_cell r) (ucell (lr_cell r) _ k))); reflexivity. }
+        rewrite EL in E3. rewrite (lextends_prefix _ _ E3). exact E2.
+      * destruct (lc_alive (gcell (lr_cell r) k)).
+        -- match type of E1 with match ?x with _ => _ end = _ => destruct x as [k2|] eqn:E3; [|discriminate] end.
+           apply lprocess_log in E3.
+           assert (Y : ltake_out 0 k2 = (o, k')) by congruence. unfold ltake_out in Y. inversion Y; subst o k'; clear Y.
+           unfold ltake_out in *. cbn [fst snd l_log] in *. cbn [C03_log].
+           match type of E3 with lextends (l_log ?kk) _ => assert (EL : l_log kk = l_log k) end.
+           { unfold lwake_cell. destruct (lc_waker (gcell (lr_cell r) (ucell (lr_cell r) _ k))); reflexivity. }
+           rewrite EL in E3. rewrite (lextends_prefix _ _ E3). exact E2.
+        -- assert (Y : o = OCall 2 [] (l_log k) /\ k' = k) by (split; congruence). destruct Y as [-> ->].
+           cbn [C03_log]. rewrite is_prefix_refl. exact E2.
+      * assert (Y : o = OCall 1 [] (l_log k) /\ k' = k) by (split; congruence). destruct Y as [-> ->].
+        cbn [C03_log]. rewrite is_prefix_refl. exact E2.
+    + (* ADropReq *)
+      destruct (find_lr tg v occ 0 (l_reqs k)) as [i|]; [|assert (Y : o = ONone /\ k' = k) by (split; congruence); destruct Y as [-> ->]; apply Same; [exact I | reflexivity]].
+      set (r := nth i (l_reqs k) (mkLR 0 0 0 0 true)) in *.
+      destruct (lr_dropped r); [assert (Y : o = ONone /\ k' = k) by (split; congruence); destruct Y as [-> ->]; apply Same; [exact I | reflexivity]|].
+      assert (Y : o = ONone) by congruence. subst o. apply Same; [exact I|].
+      assert (Z : k' = lset_req i (mkLR (lr_tag r) (lr_val r) (lr_kind r) (lr_cell r) true)
+                         (match lr_kind r with 2 => ucell (lr_cell r) (fun y => mkLC (lc_alive y) (lc_queue y) (lc_waker y) false) k | _ => k end)) by congruence.
+      rewrite Z. unfold lset_req. cbn [l_log]. destruct (lr_kind r) as [|[|[|n]]]; reflexivity.
+    + (* AEvent *)
+      match type of E1 with match ?x with _ => _ end = _ => destruct x as [k2|] eqn:E3; [|discriminate] end.
+      apply lprocess_log in E3. rewrite lupdate_log in E3.
+      assert (Y : ltake_out 0 k2 = (o, k')) by congruence. unfold ltake_out in Y. inversion Y; subst o k'; clear Y.
+      unfold ltake_out in *. cbn [fst snd l_log] in *. cbn [C03_log].
+      destruct E3 as [l El]. rewrite El in *. rewrite E2, <- app_assoc, is_prefix_app, skipn_app_len. cbn [app]. rewrite event_eqb_refl. reflexivity.
+    + (* ALive *)
+      inversion E1; subst. apply Same; [exact I | reflexivity].
+Qed.
+Corollary under_legacy_core_log_ok hs acts os : under_legacy_core hs acts = Some os -> C03_log acts os [] = true.
+Proof. unfold under_legacy_core. intros E. apply (lcrun_log_ok acts hs lcore0 os E). Qed.
+
+(* ---------- C01_ok (the Noop probe) holds of every trace of the legacy host ---------- *)
+Definition lidle (k : lcore) : Prop := l_spawn k = [] /\ l_ready k = [] /\ l_events k = [] /\ l_out k = [].
+Lemma LF_S : exists n, LF = S n. Proof. exists 399. reflexivity. Qed.
+Lemma lrun_all_idle f k : l_spawn k = [] -> l_ready k = [] -> lrun_all (S f) k = Some k.
+Proof.
+  intros Es Er. cbn [lrun_all]. destruct LF_S as [n ->]. cbn [lspawn_pass]. rewrite Es. cbn [lready_pass]. rewrite Er. reflexivity.
+Qed.
+Lemma lprocess_of_idle f hs k : l_spawn k = [] -> l_ready k = [] -> l_events k = [] -> lprocess (S f) hs k = Some k.
+Proof.
+  intros Es Er Ee. cbn [lprocess]. destruct LF_S as [n En]. rewrite En. rewrite (lrun_all_idle n k Es Er). rewrite Ee. reflexivity.
+Qed.
+Lemma ltake_out_idle code k2 : l_spawn k2 = [] -> l_ready k2 = [] -> l_events k2 = [] -> lidle (snd (ltake_out code k2)).
+Proof. intros A B C. unfold ltake_out, lidle. cbn. auto. Qed.
+
+Theorem lcrun_probes_ok : forall hs, llookup 99 hs = [] -> forall acts k os prev,
+  lcrun hs acts k = Some os ->
+  match prev with Some plog => lidle k /\ plog = l_log k | None => True end ->
+  C01_probes acts os prev = true.
+Proof.
+  intros hs Hp. induction acts as [|a acts IH]; intros k os prev E Pv; cbn [lcrun] in E.
+  - assert (os = []) by congruence. subst. reflexivity.
+  - destruct (lstep hs a k) as [[o k']|] eqn:E1; [|discriminate].
+    destruct (lcrun hs acts k') as [os'|] eqn:E2; [|discriminate].
+    assert (X : os = o :: os') by congruence. subst os. clear E.
+    (* the three ways a step can relate to the probe bookkeeping *)
+    assert (Keep : k' = k -> (match o with OCall 0 _ _ => False | OCall _ _ _ | OResolve _ | OLive _ => True | _ => False end) ->
+                   C01_probes (a :: acts) (o :: os') prev = true).
+    { intros -> Ho. cbn [C01_probes]. destruct o as [| | |c|c effs lg|n| |]; try contradiction; try (apply (IH k os' prev E2 Pv)).
+      destruct c; [contradiction | apply (IH k os' prev E2 Pv)]. }
+    assert (Reset : (match o with ONone => True | _ => False end) -> C01_probes (a :: acts) (o :: os') prev = true).
+    { intros Ho. destruct o; try contradiction. cbn [C01_probes]. apply (IH k' os' None E2 I). }
+    assert (Call : forall k2 ok, l_spawn k2 = [] -> l_ready k2 = [] -> l_events k2 = [] -> ltake_out 0 k2 = (o, k') ->
+                   (ok = true) ->
+                   (match a, prev with AEvent 99 0, Some plog => l_out k2 = [] /\ l_log k2 = plog ++ [mkEv 99 0 []] | _, _ => True end) ->
+                   C01_probes (a :: acts) (o :: os') prev = true).
+    { intros k2 ok A B Cc Y _ Pr. unfold ltake_out in Y. inversion Y; subst o k'; clear Y. cbn [C01_probes].
+      match goal with |- (?chk && _) = true => assert (Ck : chk = true) end.
+      { destruct a; try reflexivity. destruct (Nat.eq_dec tg 99) as [->|N99].
+        - destruct v; [|reflexivity]. destruct prev as [plog|]; [|reflexivity].
+          destruct Pr as (Po & Pl). rewrite Po. cbn [map]. rewrite Pl. clear. induction (plog ++ [mkEv 99 0 []]) as [|x l IHl]; cbn; [reflexivity|]. rewrite event_eqb_refl. exact IHl.
+        - (* not the probe tag *)
+          do 99 (destruct tg as [|tg]; [reflexivity|]). destruct tg; [exfalso; apply N99; reflexivity | reflexivity]. }
+      rewrite Ck. cbn [andb].
+      apply (IH _ os' (Some (l_log k2)) E2). split; [|reflexivity].
+      unfold lidle. cbn. auto. }
+    destruct a; cbn [lstep] in E1;
+      try (assert (Y : o = ONone) by congruence; apply Reset; rewrite Y; exact I).
+    + (* AResolve *)
+      destruct (find_lr tg v occ 0 (l_reqs k)) as [i|]; [|apply Keep; [congruence | assert (o = OResolve 3) by congruence; subst; exact I]].
+      set (r := nth i (l_reqs k) (mkLR 0 0 0 0 true)) in *.
+      destruct (lr_dropped r); [apply Keep; [congruence | assert (o = OResolve 3) by congruence; subst; exact I]|].
+      destruct (lr_kind r) as [|[|[|n]]].
+      * apply Keep; [congruence | assert (o = OCall 1 [] (l_log k)) by congruence; subst; exact I].
+      * match type of E1 with match ?x with _ => _ end = _ => destruct x as [k2|] eqn:E3; [|discriminate] end.
+        destruct (lprocess_spec _ _ _ _ E3) as (_ & _ & A & B & Cc).
+        apply (Call k2 true A B Cc); [congruence | reflexivity | exact I].
+      * destruct (lc_alive (gcell (lr_cell r) k)).
+        -- match type of E1 with match ?x with _ => _ end = _ => destruct x as [k2|] eqn:E3; [|discriminate] end.
+           destruct (lprocess_spec _ _ _ _ E3) as (_ & _ & A & B & Cc).
+           apply (Call k2 true A B Cc); [congruence | reflexivity | exact I].
+        -- apply Keep; [congruence | assert (o = OCall 2 [] (l_log k)) by congruence; subst; exact I].
+      * apply Keep; [congruence | assert (o = OCall 1 [] (l_log k)) by congruence; subst; exact I].
+    + (* ADropReq *)
+      destruct (find_lr tg v occ 0 (l_reqs k)) as [i|]; [|apply Reset; assert (o = ONone) by congruence; subst; exact I].
+      destruct (lr_dropped _); apply Reset; assert (o = ONone) by congruence; subst; exact I.
+    + (* AEvent *)
+      match type of E1 with match ?x with _ => _ end = _ => destruct x as [k2|] eqn:E3; [|discriminate] end.
+      destruct (lprocess_spec _ _ _ _ E3) as (_ & _ & A & B & Cc).
+      apply (Call k2 true A B Cc); [congruence | reflexivity|].
+      destruct (Nat.eq_dec tg 99) as [->|N99]; [|do 99 (destruct tg as [|tg]; [exact I|]); destruct tg; [exfalso; apply N99; reflexivity | exact I]].
+      destruct v; [|exact I]. destruct prev as [plog|]; [|exact I]. destruct Pv as ((Is & Ir & Ie & Io) & ->).
+      (* a probe on an idle core: update spawns nothing, the executor has nothing to run *)
+      assert (U : lupdate hs (mkEv 99 0 []) k = mkLK (l_cells k) (l_ent k) (l_next k) (l_spawn k) (l_ready k) (l_events k) (l_out k) (l_log k ++ [mkEv 99 0 []]) (l_reqs k)).
+      { unfold lupdate. cbn [v_maps v_tag]. rewrite Hp. reflexivity. }
+      rewrite U in E3. destruct LF_S as [n En]. rewrite En in E3.
+      rewrite (lprocess_of_idle n hs (mkLK (l_cells k) (l_ent k) (l_next k) (l_spawn k) (l_ready k) (l_events k) (l_out k) (l_log k ++ [mkEv 99 0 []]) (l_reqs k)) Is Ir Ie) in E3. assert (k2 = mkLK (l_cells k) (l_ent k) (l_next k) (l_spawn k) (l_ready k) (l_events k) (l_out k) (l_log k ++ [mkEv 99 0 []]) (l_reqs k)) by congruence.
+      subst k2. cbn [l_out l_log]. split; [exact Io | reflexivity].
+    + (* ALive *)
+      apply Keep; [congruence|]. inversion E1; subst. exact I.
+Qed.
+Corollary C01_ok_holds_of_legacy_model hs acts os : llookup 99 hs = [] ->
+  under_legacy_core hs acts = Some os -> C01_probes acts os None = true.
+Proof. intros Hp E. apply (lcrun_probes_ok hs Hp acts lcore0 os None E I). Qed.
